@@ -121,7 +121,7 @@ def m_success_means_all_ok(run):
         else:
             typ = res[1]
             occurred = set(failed_mains.get(t, [])) | set(recorded.get(t, []))
-            ok_types = occurred | set(CANCEL_TYPES) | {'RuntimeError'}   # RuntimeError: user set_exception / callbacks
+            ok_types = occurred | set(CANCEL_TYPES) | {'RuntimeError', 'KeyboardInterrupt'}   # RuntimeError: user set_exception / callbacks
             if typ not in ok_types:
                 f.append(f'{lb}: result() raised {typ}, which is none of the failures that occurred {sorted(occurred)}')
     return f
@@ -222,6 +222,20 @@ def make_fs_sampler(expect_paths):
     return sample
 
 
+def m_stream_order(run):
+    """Writes to a non-seekable destination arrive in stream order, each byte once."""
+    f = []
+    for lb, (kind, dst) in getattr(run, 'dests', {}).items():
+        if kind != 'nonseekable':
+            continue
+        got = run.dest_bytes.get(lb) or b''
+        exp = run.expect[lb][2]
+        if got != exp[:len(got)]:
+            f.append(f'{lb}: the non-seekable destination received {got!r}, which is not a prefix of the object {exp!r} '
+                     f'(bytes out of order or duplicated)')
+    return f
+
+
 # ---------------------------------------------------------------- C07
 def m_cancel(run):
     f = []
@@ -240,7 +254,7 @@ def m_cancel(run):
             first_queued.setdefault(r['t'], i)
     want_type = 'FatalError' if how == 'exit_exc' else 'CancelledError'
     want_msg = {'shutdown': c.get('msg', 'stop now'), 'exit_exc': 'boom', 'exit_kbi': 'KeyboardInterrupt()',
-                'future': '', 'controller': 'injected', 'result_kbi': ''}[how]
+                'future': '', 'controller': 'injected', 'result_kbi': '', 'exit_wait_kbi': 'KeyboardInterrupt()'}[how]
     s3 = s3_events_by_transfer(run)
     setres = {r['t'] for r in run.trace if r['ev'] == 'set_result'}
     for lb, t in labels.items():
@@ -252,7 +266,7 @@ def m_cancel(run):
             stored = rec['stored'] or {}
             if stored.get('type') != want_type and how != 'result_kbi':
                 f.append(f'{lb}: cancelled through {how} but the stored exception is {stored.get("type")}, expected {want_type}')
-            if how in ('shutdown', 'exit_exc', 'exit_kbi', 'controller') and stored.get('msg') != want_msg:
+            if how in ('shutdown', 'exit_exc', 'exit_kbi', 'controller', 'exit_wait_kbi') and stored.get('msg') != want_msg:
                 f.append(f'{lb}: cancellation message is {stored.get("msg")!r}, expected {want_msg!r}')
             if res[0] == 'ok':
                 if t not in setres:
